@@ -377,8 +377,11 @@ func (r *transport) handleCacheHit(
 		}
 	}
 
-	req = withConditionalHeaders(req, stored.Data.Header)
-	resp, start, end, err := r.roundTripTimed(req)
+	// The validators are the cache's own addition: only the request sent to
+	// the origin carries them. What is stored afterwards is selected (Vary)
+	// by the client's request.
+	condReq := withConditionalHeaders(req, stored.Data.Header)
+	resp, start, end, err := r.roundTripTimed(condReq)
 	return r.finishValidation(
 		req, resp, err, start, end,
 		stored, urlKey, freshness, ccReq, refs, refIndex,
@@ -469,7 +472,7 @@ func (r *transport) handleStaleWhileRevalidate(
 	refIndex int,
 ) (*http.Response, error) {
 	req2 := req.Clone(req.Context())
-	req2 = withConditionalHeaders(req2, stored.Data.Header)
+	condReq := withConditionalHeaders(req2, stored.Data.Header)
 	// Background revalidation is "best effort"; it is not guaranteed to complete
 	// if the program exits before the goroutine finishes. This design choice was
 	// made to keep the API simple and avoid requiring explicit shutdown coordination.
@@ -483,7 +486,7 @@ func (r *transport) handleStaleWhileRevalidate(
 	)
 	internal.SetAgeHeader(stored.Data, r.clock, freshness.Age)
 	internal.CacheStatusStale.ApplyTo(stored.Data.Header)
-	go r.backgroundRevalidate(req2, stored.ID, urlKey, freshness, ccReq, refs, refIndex)
+	go r.backgroundRevalidate(req2, condReq, stored.ID, urlKey, freshness, ccReq, refs, refIndex)
 	r.logger.LogCacheStaleRevalidate(req, urlKey, internal.MiscFunc(func() internal.Misc {
 		return internal.Misc{
 			CCReq:     ccReq,
@@ -498,7 +501,8 @@ func (r *transport) handleStaleWhileRevalidate(
 // against the origin. It works on its own copy of the entry, loaded from the
 // store: the response object already handed to the caller is never touched.
 func (r *transport) backgroundRevalidate(
-	req *http.Request,
+	req *http.Request, // the client's request (a copy)
+	condReq *http.Request, // the same with the cache's validators, sent to the origin
 	storedID string,
 	urlKey string,
 	freshness *internal.Freshness,
@@ -509,6 +513,7 @@ func (r *transport) backgroundRevalidate(
 	ctx, cancel := context.WithTimeout(req.Context(), r.swrTimeout)
 	defer cancel()
 	req = req.WithContext(ctx)
+	condReq = condReq.WithContext(ctx)
 	errc := make(chan error, 1)
 	go func() {
 		defer close(errc)
@@ -518,7 +523,7 @@ func (r *transport) backgroundRevalidate(
 			return
 		}
 		//nolint:bodyclose // The response is not used, so we don't need to close it.
-		resp, start, end, err := r.roundTripTimed(req)
+		resp, start, end, err := r.roundTripTimed(condReq)
 		if err != nil {
 			errc <- err
 			return
